@@ -646,6 +646,10 @@ pub fn c07(ctx: &Ctx) -> Report {
 
     // E1: histories
     explore(quant_machine(full), &ExploreCfg { max_depth: None, state_cap: 40_000_000, threads: ctx.threads, label: "allow/forbid/convert histories to fixpoint".into() }, &mut rep, &["C07"]);
+    enumerate_sequences(&small_quant_machine(), if full { 5 } else { 4 }, ctx, &mut rep, &["C07"], "all edit / convert sequences, no state matching");
+    if full {
+        key_selfcheck(quant_machine(false), 200_000, &mut rep, "quantizer history machine");
+    }
     rep.nontrivial = rep.counters.get("second_conversions_with_cached_note_forbidden").copied().unwrap_or(0) + rep.counters.get("conversions_with_cached_note_forbidden").copied().unwrap_or(0);
     rep.require_nonzero("second_conversions_with_cached_note_forbidden");
     rep.require_nonzero("second_conversions_with_cached_note_forbidden_octave_ge_1");
@@ -858,7 +862,24 @@ fn c09_c19(ctx: &Ctx, props: &[&'static str]) -> Report {
     rep.exhaustive = false;
     // E1 histories
     explore(quant_machine(full), &ExploreCfg { max_depth: None, state_cap: 40_000_000, threads: ctx.threads, label: "allow/forbid/convert histories to fixpoint".into() }, &mut rep, props);
+    enumerate_sequences(&small_quant_machine(), if full { 5 } else { 4 }, ctx, &mut rep, props, "all edit / convert sequences, no state matching");
     rep
+}
+
+/// a smaller alphabet for plain sequence enumeration (no state matching)
+pub fn small_quant_machine() -> QuantM {
+    let edits = vec![QOp::Forbid(vec![1]), QOp::Allow(vec![1]), QOp::Forbid(vec![0]), QOp::Allow(vec![0]), QOp::Forbid(vec![11]), QOp::Forbid((0..12).collect()), QOp::Forbid(vec![7, 9]), QOp::Allow(vec![7])];
+    let mut inputs: Vec<f32> = Vec::new();
+    for base in [0.0f64, 1.0, 9.0] {
+        for s in [0.0f64, 0.95, 1.05, 1.5, -0.05, 7.0, 11.0, 11.95] {
+            let v = base + s / 12.0;
+            if v >= 0.0 {
+                inputs.push(v as f32);
+            }
+        }
+    }
+    inputs.push(10.0);
+    QuantM::new(edits, inputs)
 }
 
 fn flush(fnd: &mut Vec<Finding>, props: &[&'static str], lc: &mut LocalCounts, ops: impl Fn() -> Vec<String>) {
